@@ -492,3 +492,84 @@ def rule_axis_stride(ctx):
                                  "with different strides per axis the wrong rows/columns are addressed" % (render(e)[:70], ax, ",".join(str(u) for u in sorted(used))))
     ctx.floor("AXISUSE", 3, n, "(stride-dependent advances in the axis loops of GRreadimage/GRwriteimage)")
     return n
+
+
+def rule_record_from_one_subrecord(ctx):
+    """ONEREC (C09): GRIupdatemeta writes two dimension records, one describing the palette (from `lut_dim`) and one describing
+    the image (from `img_dim`); both have the same layout and are encoded by two look-alike runs of ENCODE macros, each ended
+    by the Hputelement that stores the record.  Every value encoded in one run comes from one and the same sub-record; a field
+    taken from the other one (the image's component count in the palette's record) is a wrong description of the object."""
+    from .codec import codec_events
+    from .facts import calls_in
+    prog = ctx.prog
+    f = prog.func("GRIupdatemeta")
+    if f is None:
+        ctx.unrecognised("ONEREC", "ONEREC:GRIupdatemeta", "-", "GRIupdatemeta not found")
+        return 0
+    puts = sorted(c[5] for _b, _i, _s, c in f.calls() if c[1] == "Hputelement")
+    runs = {}
+    for ev, st in codec_events(f):
+        if ev.dir != "enc":
+            continue
+        nxt = next((l for l in puts if l >= ev.line), None)
+        subs = {y[2] for y in walk(ev.expr, True) if y[0] == "mem" and y[2] in ("img_dim", "lut_dim")}
+        if nxt is not None and subs:
+            runs.setdefault(nxt, []).append((ev.line, subs))
+    n = 0
+    for k, (put, evs) in enumerate(sorted(runs.items())):
+        n += 1
+        key = "ONEREC:GRIupdatemeta#%d" % (k + 1)
+        allsubs = set().union(*(s for _l, s in evs))
+        if len(allsubs) == 1:
+            ctx.holds("ONEREC", key, f.where(put), "%d values, all from `%s`" % (len(evs), next(iter(allsubs))), nontrivial=True)
+        else:
+            counts = {s: sum(1 for _l, ss in evs if s in ss) for s in allsubs}
+            odd = min(counts, key=counts.get)
+            line = next(l for l, ss in evs if odd in ss)
+            ctx.violated("ONEREC", key, f.where(line), "the record stored at line %d is encoded from `%s` except for a value taken from `%s` (line %d): the record describes one object with "
+                         "a property of the other" % (put, max(counts, key=counts.get), odd, line))
+    ctx.floor("ONEREC", 2, n, "(dimension records encoded by GRIupdatemeta)")
+    return n
+
+
+def rule_row_length_factor(ctx):
+    """ROWLEN (C09): images are stored row by row; the byte offset of row y is y * xdim * pixel size.  In GRreadimage and GRwriteimage
+    every product that scales a row index or row step (`start[YDIM]`, `stride[YDIM]`) into an offset uses the row length `xdim`
+    — never `ydim`, which gives the same number only for square images."""
+    from .facts import is_int, int_val, base_var
+    prog = ctx.prog
+    n = 0
+    for fn in ("GRreadimage", "GRwriteimage"):
+        f = prog.func(fn)
+        if f is None:
+            ctx.unrecognised("ROWLEN", "ROWLEN:%s" % fn, "-", "%s not found" % fn)
+            continue
+        seen = set()
+
+        def factors(e):
+            e = strip(e)
+            if kind(e) == "bin" and e[1] == "*":
+                return factors(e[2]) + factors(e[3])
+            return [e]
+        for _b, _i, s, x in f.nodes(True):
+            if x[0] != "bin" or x[1] != "*":
+                continue
+            fs = factors(x)
+            rowidx = [a for a in fs if kind(a) == "idx" and base_var(a[1]) in ("start", "stride") and is_int(a[2]) and int_val(a[2]) == 1]
+            if not rowidx:
+                continue
+            r = render(x)
+            if any(r in o and r != o for o in seen) or r in seen:
+                continue
+            seen.add(r)
+            dims = {y[2] for a in fs for y in walk(a, True) if y[0] == "mem" and y[2] in ("xdim", "ydim")}
+            if not dims:
+                continue
+            n += 1
+            key = "ROWLEN:%s#%d" % (fn, len(seen))
+            if dims == {"xdim"}:
+                ctx.holds("ROWLEN", key, f.where(s.get("l")), "`%s` scales the row index by xdim" % r[:60], nontrivial=True)
+            else:
+                ctx.violated("ROWLEN", key, f.where(s.get("l")), "`%s` scales a row index by %s instead of the row length xdim: on a non-square image the region lands at the wrong offset" % (r[:70], "/".join(sorted(dims))))
+    ctx.floor("ROWLEN", 3, n, "(row-index products in GRreadimage/GRwriteimage)")
+    return n
